@@ -3,7 +3,7 @@
    abstraction of the implementation's disk against the AM state. *)
 From stdpp Require Import gmap list.
 From Coq Require Import NArith ZArith Lia.
-From V Require Import Model.Lib Model.Afs Model.Abs.
+From V Require Import Model.Lib Model.Afs Model.Abs Model.Layout.
 Open Scope N_scope.
 
 Record oattrs := { oa_ftype : N; oa_size : N; oa_fileid : N; oa_atime : N * N; oa_mtime : N * N;
@@ -141,7 +141,9 @@ Definition nospace_plausible (c : call) (free_blocks free_inodes : N) : bool :=
 (* ---------- R-cache: what the server holds in memory agrees with its logical disk ---------- *)
 (* a cached inode = the 128 bytes of its disk inode *)
 Definition cached_inode_ok (sz : N) (d : disk) (i : N) (enc : bytes) : bool :=
-  bytes_eqb enc (inode_bytes (mk_layout sz) d i).
+  bytes_eqb enc (inode_bytes (mk_layout sz) d i) &&
+  (* the layout model agrees with the server's encoder on these bytes *)
+  bytes_eqb (Layout.encode_inode (decode_inode enc)) enc.
 
 (* a name cache = the occupied slots of the directory (name, inode number, byte offset of the slot),
    "." and ".." included *)
